@@ -963,3 +963,64 @@ def _(M, a, c):
         return as_slice(v)
     r = ms.m_str_eq(M, [sl(a[0]), sl(a[1])], c)
     return bnot(r) if norm_name(c).endswith('::ne') else r
+
+# ---- Result / Option combinators (generic families)
+def _callf(M, f, args):
+    if isinstance(f, Native) and f.kind == 'FnItem': return M.call(f.d['name'], args)
+    if isinstance(f, Native) and f.kind == 'ZST':
+        key = M.lookup(f.d['name'])
+        if key is None: raise Unsupported("callable " + f.d['name'])
+        return M.call(key, args)
+    return call_closure(M, f, args, byref=False)
+@model_re(r'^std::result::Result::(map_err|map|and_then|or_else|unwrap_or_else|unwrap_or|unwrap_or_default|ok|err|is_ok|is_err|expect|expect_err|unwrap_err|ok_or|map_or|map_or_else|as_ref|as_mut|iter)$')
+def _(M, a, c):
+    fn = norm_name(c).split('::')[-1]; r = a[0]
+    if fn in ('is_ok', 'is_err', 'as_ref', 'as_mut'): r = V(r)
+    isok = r.variant == 0; x = r.fields[0]
+    if fn == 'map_err': return r if isok else err(_callf(M, a[1], [x]))
+    if fn == 'map': return ok(_callf(M, a[1], [x])) if isok else r
+    if fn == 'and_then': return _callf(M, a[1], [x]) if isok else r
+    if fn == 'or_else': return r if isok else _callf(M, a[1], [x])
+    if fn == 'unwrap_or_else': return x if isok else _callf(M, a[1], [x])
+    if fn == 'unwrap_or': return x if isok else a[1]
+    if fn == 'ok': return some(x) if isok else NONE()
+    if fn == 'err': return NONE() if isok else some(x)
+    if fn == 'is_ok': return isok
+    if fn == 'is_err': return not isok
+    if fn == 'expect':
+        if not isok: raise Panic("called `Result::expect()` on an `Err` value")
+        return x
+    if fn in ('expect_err', 'unwrap_err'):
+        if isok: raise Panic("called `Result::%s()` on an `Ok` value" % fn)
+        return x
+    if fn in ('as_ref', 'as_mut'): return Agg('Result', r.variant, [Ref(r.fields, 0)])
+    if fn == 'map_or': return _callf(M, a[2], [x]) if isok else a[1]
+    if fn == 'map_or_else': return _callf(M, a[2], [x]) if isok else _callf(M, a[1], [x])
+    raise Unsupported("Result::" + fn)
+@model_re(r'^Option::(and_then|or|ok_or|ok_or_else|map_or|map_or_else|filter|take|replace|is_some_and|is_none_or|unwrap_unchecked|as_mut|as_deref|insert|get_or_insert_with|xor|zip|iter)$')
+def _(M, a, c):
+    fn = norm_name(c).split('::')[-1]; o = a[0]
+    if fn in ('take', 'replace', 'as_mut', 'insert', 'get_or_insert_with', 'as_deref'): o = V(o)
+    has = o.variant == 1; x = o.fields[0] if has else None
+    if fn == 'and_then': return _callf(M, a[1], [x]) if has else NONE()
+    if fn == 'or': return o if has else a[1]
+    if fn == 'ok_or': return ok(x) if has else err(a[1])
+    if fn == 'ok_or_else': return ok(x) if has else err(_callf(M, a[1], []))
+    if fn == 'map_or': return _callf(M, a[2], [x]) if has else a[1]
+    if fn == 'map_or_else': return _callf(M, a[2], [x]) if has else _callf(M, a[1], [])
+    if fn == 'filter':
+        if not has: return NONE()
+        return o if M.branch(_callf(M, a[1], [Ref(o.fields, 0)])) else NONE()
+    if fn == 'take':
+        r = Agg('Option', o.variant, list(o.fields)); o.variant = 0; o.fields = []; return r
+    if fn == 'replace':
+        r = Agg('Option', o.variant, list(o.fields)); o.variant = 1; o.fields = [a[1]]; return r
+    if fn == 'insert': o.variant = 1; o.fields = [a[1]]; return Ref(o.fields, 0)
+    if fn == 'get_or_insert_with':
+        if not has: o.variant = 1; o.fields = [_callf(M, a[1], [])]
+        return Ref(o.fields, 0)
+    if fn == 'is_some_and': return has and M.branch(_callf(M, a[1], [x]))
+    if fn == 'is_none_or': return (not has) or M.branch(_callf(M, a[1], [x]))
+    if fn == 'as_mut': return some(Ref(o.fields, 0)) if has else NONE()
+    if fn == 'unwrap_unchecked': return x
+    raise Unsupported("Option::" + fn)
